@@ -386,7 +386,14 @@ def run_case(case, script=None, max_steps=500):
             while oi < len(ops) and ops[oi]['at'] <= step:
                 o = ops[oi]
                 oi += 1
-                do_stop(_choose(robs[-1], o, last_target[0]), o.get('state'), o.get('msg'), op=o['op'])
+                tgt = _choose(robs[-1], o, last_target[0])
+                if o['op'] in ('pause', 'resume') and robs[-1]['execs'][tgt][3] in FINAL and \
+                        any(t[6] is not None for t in robs[-1]['tasks']):
+                    # pause / resume of a FINISHED execution raises and is rolled back; with a with-items task in the
+                    # tree the update jobs scheduled inside that transaction stay in the scheduler's memory but are
+                    # dropped when they fail to capture their (rolled back) row: not modelled (docs/C10.md), not generated
+                    continue
+                do_stop(tgt, o.get('state'), o.get('msg'), op=o['op'])
             en = _enabled(w)
             if not en:
                 if oi < len(ops):
